@@ -347,6 +347,31 @@ func genCase(t *rapid.T) Case {
 			c.Late = append(c.Late, LateHeaders{I: rapid.IntRange(0, len(c.Regs)-1).Draw(t, "li"), H: genHeaders(t)})
 		}
 	}
+	// two requests that differ only in where a comma-separated list is cut
+	// between two constrained headers ("a,b" + "c" against "a" + "b,c"): each
+	// header's own value decides, not what the values look like side by side
+	for ri, g := range c.Regs {
+		if len(g.Headers) == 0 || rapid.IntRange(0, 1).Draw(t, "shift") != 0 {
+			continue
+		}
+		last := g.Headers[len(g.Headers)-1]
+		if len(last) < 4 {
+			continue
+		}
+		pc := func(label string) string {
+			return []string{"v1", "7", "a", "ab", "Caddy", "x", "12", "b"}[rapid.IntRange(0, 7).Draw(t, label)]
+		}
+		p1, p2, p3 := pc("p1"), pc("p2"), pc("p3")
+		ms := g.methods()
+		m := ms[rapid.IntRange(0, len(ms)-1).Draw(t, "shiftm")]
+		path := "/" + strings.Join(gen.Instance(t, rt.Deriv(c.Regs[ri].R), false), "/")
+		a := rt.Req{M: m, P: path, H: [][2]string{{last[0], p1 + "," + p2}, {last[2], p3}}}
+		b := rt.Req{M: m, P: path, H: [][2]string{{last[0], p1}, {last[2], p2 + "," + p3}}}
+		if rapid.Bool().Draw(t, "shiftorder") {
+			a, b = b, a
+		}
+		reqs = append(reqs, a, b)
+	}
 	// a constrained header may be repeated; only repetitions whose verdict does
 	// not depend on which of the values counts - the first, the last, any, or
 	// the comma-joined list - are generated, for every expression the case
